@@ -16,7 +16,7 @@ RULE = ('Valid powertrains (as C01, optional duty-cycle histories; a third are s
         'amperometer on the motor), one of the five operators and a threshold in a random unit placed before, inside '
         'or beyond the reachable range: the case carries a quantile q and an offset, and the checker derives the '
         'threshold from the sensed series of the UN-STOPPED run of the same case (deterministic); exact-tie cases use '
-        'a recorded sample itself as threshold (same unit, so the comparison is exact). Oracle: expected stop index = '
+        'a recorded sample itself, or the float one unit in the last place above / below it, as threshold (same unit, so the comparison is exact). Oracle: expected stop index = '
         'first instant k >= 1 of the un-stopped series at which the comparison holds (exact SI, margin policy); the '
         'stopped run must be bit-identical to the prefix 0..k of the un-stopped run, the comparison recomputed from '
         'the recorded series is false at instants 1..k-1 and true at k, and nothing is recorded after k; if it never '
@@ -67,6 +67,10 @@ def check(case) -> Result:
         j = 1 + st_['exact_tie'] % (u.n - 1)
         sample = bu.powertrain.elements[target].time_variables[var][j]
         thr_pair = [sample.value, sample.unit]
+        if st_.get('tie_ulps') and isinstance(sample.value, float) and np.isfinite(sample.value):
+            # one unit in the last place above / below the recorded sample, in the same unit: the comparison is still exact
+            import math
+            thr_pair[0] = math.nextafter(sample.value, math.inf if st_['tie_ulps'] > 0 else -math.inf)
     else:
         lo, hi = float(np.min(series)), float(np.max(series))
         thr = lo + (hi - lo) * st_['q'] + (hi - lo + scale * 1e-3) * st_['offset']
@@ -172,7 +176,7 @@ def check(case) -> Result:
     res.nontrivial = kexp is not None and 1 < kexp < u.n - 1
     if from_run:
         res.classes += ('stop-on-continuation-only', 'true-at-junction' if truth[k_first - 1] else 'false-at-junction')
-    res.classes += (f'sensor:{sensor}', f'op:{op}', 'exact-tie' if tie_exact else 'generic',
+    res.classes += (f'sensor:{sensor}', f'op:{op}', ('one-ulp-off-tie' if st_.get('tie_ulps') else 'exact-tie') if tie_exact else 'generic',
                     'stops-inside' if res.nontrivial else ('never' if kexp is None else 'edge'))
     return res
 
@@ -194,6 +198,7 @@ def s_case(draw, max_len=5, max_steps=40):
             'unit': draw(G.s_unit(kind))}
     if spec['op'] == 'eq' or draw(st.integers(0, 5)) == 0:
         spec['exact_tie'] = draw(st.integers(0, 200))
+        spec['tie_ulps'] = draw(st.sampled_from([0, 0, 1, -1]))
     if draw(st.integers(0, 3)) == 0:
         spec['rerun'] = True
         spec['new_solver'] = draw(st.booleans())
